@@ -37,9 +37,13 @@ CLAIMS = {
          "(n<=6); star-of-paths shape (Lean checker, PROVED equivalent to the declarative notion IsCanonicalStar: C02_shape_checker), accounting (vertices + dependents == distinct inputs) and one graph per "
          "component at any n (to 16/24 qubits). Closure preservation of the reduction for all inputs is not proved.",
          "Lean-verified closure/shape checkers per input + differential correspondence of the reduction model"),
- "C08": ("other", "6.C08", "Partial: get_space / select_dependents / is_in / is_eq compared per input with the Lean-verified commutator closure (all 4^n single queries for "
-         "n<=3, sampled query sets to n=5/6); model of the membership pipeline tied by correspondence. Membership correctness for all inputs is not proved.",
-         "Lean-verified closure checker per query + differential correspondence"),
+ "C08": ("other", "6.C08", "SOUNDNESS of the membership verdicts PROVED in Lean for all inputs under an executable guard (C08_partial, C08_dependent_sound, C08_select_sound, C08_isin_sound): "
+         "if the guarded run of a query against the stored canonical legs passes its certificate checks, every string reported dependent lies in the closure, so "
+         "select_dependents G X is a subset of X and of Clo G, is_in true implies X inside Clo G, get_space inside Clo G (together with C02_classify_partial). Three checked "
+         "certificates of NON-membership are proved sound (separating commuting string; identity; quadratic form q with polar form omega on independent vertices) — they "
+         "certify most non-member answers; completeness in general is not proved. Per input: every query also goes through the guarded run (`mguards`, verdict must equal "
+         "the implementation's) and is compared with the Lean-verified commutator closure (all 4^n single queries for n<=3, sampled query sets to n=5/6, queries on edited collections).",
+         "Lean soundness proof under per-query guards + Lean-verified closure checker per query + differential correspondence"),
  "C09": ("other", "6.C09", "Proved in Lean for EVERY classification (C09_name_dim): get_dla_dim() answers iff get_algebra() answers and equals the sum over the summands of the reported name of multiplicity x dimension (u(1) = 1) — the model of the two methods is tied to the code by correspondence. Partial for the first clause: get_dla_dim == size of the Lean-verified closure per input (n<=6); name-dimension consistency also checked on the implementation at any n (to 10/14 qubits).",
          "Lean-verified closure size + name-dimension arithmetic per input + differential correspondence"),
  "C10": ("proof", "6.C10", "Lean refinement proof, parametric in the classifier: abstract state = list of generators, abstract step = the plain list edit; invariant "
